@@ -28,6 +28,7 @@ TraceHosted == {Hdr.hosted[i] : i \in 1..Len(Hdr.hosted)}
 TraceKeys   == 1..Len(Hdr.part)
 TraceVals   == 0..99
 TraceNs     == [k \in 1..Len(Hdr.part) |-> Hdr.ns[k]]
+TraceRefused == {Hdr.poison[i] : i \in 1..Len(Hdr.poison)}
 
 tvars == <<part, store, ref, reply, refReply, touched, l, bad>>
 
@@ -50,7 +51,7 @@ Expected ==
     [] E.name = "del"    -> DelReply(ref, Ks)
     [] E.name = "exists" -> ExistsReply(ref, Ks)
     [] E.name = "mget"   -> MGetReply(ref, Ks)
-    [] E.name = "plset"  -> OKs(Ks)
+    [] E.name = "plset"  -> Statuses(Ks)
 
 Observed ==
   CASE E.name \in {"set", "plset"}  -> Seq1(E.oks)
